@@ -55,7 +55,7 @@ def generate(seed, tier, index):
         f = {"op": "onevent", "id": ncb,
              "device": rng.choice([None, None, "DA", "DB", "DZ"]), "vector": rng.choice([None, None, "P1", "P2", "P9"]),
              "element": rng.choice([None, None, None, "E1", "E2", "E9"]), "type": rng.choice(["Base", "Base", "Value", "State", "Definition"]),
-             "kind": rng.choice(["plain", "plain", "plain", "coro", "raising"])}
+             "kind": rng.choice(["plain", "plain", "plain", "coro", "coro", "raising", "raising_coro"])}
         ncb += 1
         return f
 
@@ -199,6 +199,10 @@ def execute(scen):
                 self._log(ev)
                 raise RuntimeError("callback failure injected")
 
+            async def raising_coro(self, ev):
+                self._log(ev)
+                raise RuntimeError("callback failure injected")
+
         def make_cb(cid, kind):
             cbs[cid]["recorder"] = Recorder(cid)
             return getattr(cbs[cid]["recorder"], kind)
@@ -304,7 +308,7 @@ def execute(scen):
                 got_any = True
             f2 = dict(facts, cb_kind=c["kind"], type=f["type"], has_element_filter=f["element"] is not None)
             fdesc = {k: f[k] for k in ("device", "vector", "element", "type", "kind")}
-            if c["kind"] != "coro":
+            if c["kind"] not in ("coro", "raising_coro"):
                 late = [e for e, removed in c["log"] if removed]
                 if late:
                     viol.append({"clause": "C16.removed", "detail": f"callback {fdesc} invoked after its removal with {short(late[0], 120)}", "facts": f2})
